@@ -160,6 +160,8 @@ def watcher_filter_case(pr):
         return None
     time.sleep(0.4)
     n0 = pr.count("s t")
+    # a triggered target is re-evaluated even when the evaluation ends in a skip: zinoma reports `Building` or `Build skipped`
+    evals0 = pr.output_of(p).count(" t - Build")
     # irrelevant changes
     irrelevant = ["src/in.txt~", "src/.in.txt.swp", "src/.in.txt.swx", "src/notes.md", "src/mockup.png", "src/.zinoma/state", ".zinoma/x.checksums2", "elsewhere/in.txt"]
     for f in irrelevant:
@@ -168,6 +170,8 @@ def watcher_filter_case(pr):
     time.sleep(QUIET)
     if pr.count("s t") != n0:
         return {"property": "C16", "expected": "changes confined to editor temporaries, other extensions, .zinoma and undeclared paths (%s) never trigger a run" % irrelevant, "observed": "t started %d more time(s)" % (pr.count("s t") - n0), "output": pr.output_of(p)[-400:]}
+    if pr.output_of(p).count(" t - Build") != evals0:
+        return {"property": ["C16", "C15"], "expected": "changes confined to editor temporaries, other extensions, .zinoma and undeclared paths (%s) do not trigger the target at all (not even an evaluation that ends in `Build skipped`)" % irrelevant, "observed": "zinoma reported %d more evaluation(s) of t" % (pr.output_of(p).count(" t - Build") - evals0), "output": pr.output_of(p)[-500:]}
     # nasty names must not stop the watcher
     for nb in (b"src/\xff\xfe.txt", b"src/.\xc3\xa9", "src/.日本".encode(), "src/.aé.sw".encode(), b"src/~", b"src/."+b"\xe2\x82\xac"*2):
         try:
@@ -249,6 +253,33 @@ def wide_failure_case(pr):
     p = pr.spawn("top")
     if not pr.wait_exit(p, 40):
         return {"property": "C10", "expected": "a failure while thousands of messages are in flight still ends the run (40 s allowed)", "observed": "still running after 40 s", "output": pr.output_of(p)[-400:]}
+    time.sleep(0.2)
+    left = [q for q in _pids(pr, "long") if _alive(q)]
+    if left:
+        return {"property": "C10", "expected": "no spawned shell left behind", "observed": "pid(s) %s alive" % left}
+    return None
+
+
+def sigterm_during_wide_run_case(pr):
+    ts = {"long": {"build": 'echo "pid long $$" >> "$ZLOG"\nexec sleep 120'}}
+    aggs = []
+    for i in range(30):
+        leaves = []
+        for j in range(60):
+            n = "l%d_%d" % (i, j)
+            ts[n] = {"build": "true"}
+            leaves.append(n)
+        ts["g%d" % i] = {"dependencies": leaves}
+        aggs.append("g%d" % i)
+    ts["top"] = {"dependencies": ["long"] + aggs}
+    pr.write("zinoma.yml", yml(ts), record=False)
+    pr.files["zinoma.yml"] = "top -> [long (sleep 120), g0..g29]; g_i -> 60 leaves `true`"
+    p = pr.spawn("top")
+    if not pr.wait_for(lambda: _pids(pr, "long"), WAIT):
+        return None
+    os.kill(p.pid, signal.SIGTERM)      # while the 1800 leaves and their messages are still in flight
+    if not pr.wait_exit(p, 30):
+        return {"property": "C10", "expected": "a termination signal is honoured while many messages are in flight (30 s allowed)", "observed": "still running after 30 s", "output": pr.output_of(p)[-300:]}
     time.sleep(0.2)
     left = [q for q in _pids(pr, "long") if _alive(q)]
     if left:
@@ -508,6 +539,7 @@ def cases(seed, tier="quick"):
         C("failure-with-running-sibling", failure_with_running_sibling_case, "failed target while a sibling builds"),
         C("wide-failure", wide_failure_case, "failure with thousands of messages in flight"),
         C("many-roots", many_roots_case, "100 targets on the command line"),
+        C("sigterm-during-wide-run", sigterm_during_wide_run_case, "SIGTERM with many messages in flight"),
         C("service-requested", service_requested_case(False), "requested service keeps zinoma alive, stopped at SIGTERM"),
         C("service-requested-via-aggregate", service_requested_case(True), "service requested through an aggregate"),
         C("service-dependency", service_dependency_case, "service only depended on: up during the build, stopped at exit"),
